@@ -833,13 +833,21 @@ S_Close(g) ==
                                   !.unacked = @ \ {<<AckIdOf(j), j>>}, !.acked = @ \cup {j},
                                   !.jst[j] = "closed", !.pc[g] = "jclose.marked", !.stk[g] = <<"serve.closed">>]
      ELSE S' = [S EXCEPT !.jst[j] = "closed", !.pc[g] = "jclose.marked", !.stk[g] = <<"serve.closed">>]
-\* freePoolNode: keep the node, or stop the own goroutine
+\* freePoolNode: decide (queue length, limit, idle count are read here) whether to keep the node ...
 S_Free(g) ==
   /\ g \in PGs /\ S.pc[g] = "serve.closed"
-  /\ LET n == S.loc[g].node IN
-       S' = IF QTot >= S.conc \/ Expiry \/ Len(S.idle) < MinIdle
-              THEN [S EXCEPT !.idle = Append(@, n), !.pc[g] = "serve.freed"]
-              ELSE [S EXCEPT !.nch[n] = Append(@, STOP), !.cache = @ \cup {n}, !.pc[g] = "serve.freed"]
+  /\ S' = IF QTot >= S.conc \/ Expiry \/ Len(S.idle) < MinIdle
+            THEN [S EXCEPT !.pc[g] = "free.push"]
+            ELSE [S EXCEPT !.pc[g] = "free.stop"]
+  /\ UNCHANGED H
+\* ... then push it onto the idle list, or stop the own goroutine (the stop payload goes into the own, empty channel) and cache the node
+S_FreePush(g) ==
+  /\ g \in PGs /\ S.pc[g] = "free.push"
+  /\ S' = [S EXCEPT !.idle = Append(@, S.loc[g].node), !.pc[g] = "serve.freed"]
+  /\ UNCHANGED H
+S_FreeStop(g) ==
+  /\ g \in PGs /\ S.pc[g] = "free.stop"
+  /\ S' = [S EXCEPT !.nch[S.loc[g].node] = Append(@, STOP), !.cache = @ \cup {S.loc[g].node}, !.pc[g] = "serve.freed"]
   /\ UNCHANGED H
 S_Dec(g) ==
   /\ g \in PGs /\ S.pc[g] = "serve.freed"
@@ -881,7 +889,7 @@ SubStep(p) == CT_Marked(p) \/ CT_Wgc(p) \/ CT_RespClose(p) \/ LC_Switch(p) \/ T_
               \/ I_Start(p) \/ ST_Go(p) \/ ST_Go2(p) \/ ST_Push(p) \/ ST_Fin(p) \/ ST_Notify(p)
 DispStep(d) == D_Take(d) \/ D_Woken(d) \/ D_Exit(d) \/ D_Check(d) \/ D_Check2(d) \/ D_Reserve(d) \/ D_Recheck(d) \/ D_Deq(d) \/ D_HandOver(d) \/ D_Proc(d) \/ D_Skip(d) \/ D_Node(d) \/ D_Send(d)
                \/ Rel_Eval(d) \/ Rel_Bcast(d)
-PoolStep(g) == S_Recv(g) \/ S_Enter(g) \/ S_Exit(g) \/ S_Fin(g) \/ S_Close(g) \/ S_Fin2(g) \/ CT_Marked(g) \/ CT_Wgc(g) \/ CT_RespClose(g) \/ S_Free(g) \/ S_Dec(g) \/ S_Notify(g)
+PoolStep(g) == S_Recv(g) \/ S_Enter(g) \/ S_Exit(g) \/ S_Fin(g) \/ S_Close(g) \/ S_Fin2(g) \/ CT_Marked(g) \/ CT_Wgc(g) \/ CT_RespClose(g) \/ S_Free(g) \/ S_FreePush(g) \/ S_FreeStop(g) \/ S_Dec(g) \/ S_Notify(g)
                \/ Rel_Eval(g) \/ Rel_Bcast(g)
 ReapStep(r) == RP_Tick(r) \/ RP_Len(r) \/ RP_Next(r) \/ RP_Stop(r) \/ RP_Cont(r)
 LisStep(x) == X_Fire(x) \/ X_Check(x) \/ SubStep(x)
